@@ -21,9 +21,17 @@ package fasthttp
 //@     requires[rotation] len(addrs) > 0 && k == (start % len(addrs) + attempts) % len(addrs)
 //@   on call TCPDialer.tryDial#2 -> cn, e:
 //@     effect attempts = attempts + 1
+//   The timeout is turned into one deadline when dial is entered; resolution, the wait for a slot and every connect
+//   attempt share it. A second look at the clock would start the caller's timeout again for the later steps.
+//@   ghost clockReads int = 0
+//@   on call time.Now -> t:
+//@     nohavoc
+//@     effect clockReads = clockReads + 1
 //@   end
 //@   loop 1:
 //@     invariant[attempts-so-far] attempts == _i
+//@     invariant[one-deadline] clockReads <= 1
+//@   ensures[one-deadline-for-the-whole-dial] clockReads <= 1
 
 // tryDial, the concurrency semaphore: a slot is given back (receive from concurrencyCh) exactly by a call that took
 // one (send to it), after it took it -- a dial that timed out waiting for a slot gives nothing back.
